@@ -1,7 +1,8 @@
 /-
 Model of `bundle.VerificationCache` (C14): /repo/bundle/verifier.go.
 
-The cache maps the key "sorted discharge strings, then the permission string, joined by `,`" to a
+The cache maps the key "candidate discharge strings (sorted, see `KeyOrder`), then the permission
+string, joined by `,`" to a
 successful verification result and an expiry.  Eviction is an ARBITRARY step (any entry may
 disappear at any time: stronger than LRU), `now` is supplied per step.
 
@@ -34,30 +35,41 @@ def strLt : Str → Str → Bool
   | _ :: _, [] => false
   | a :: as, b :: bs => if a.toNat < b.toNat then true else if b.toNat < a.toNat then false else strLt as bs
 
-def insertSorted (x : Str) : List Str → List Str
+/-- `m.Nonce().KID` of a candidate (the ticket it answers); empty for a token that is no macaroon -/
+def kidOf (t : Tok) : Bytes := t.kid?.getD []
+
+/-- how `(*VerificationCache).Verify` orders the candidate discharges before building the key and
+calling the inner verifier (the slice is sorted IN PLACE, so the inner verifier sees that order) -/
+inductive KeyOrder
+  /-- the code as it is now: `slices.SortStableFunc` by `bytes.Compare` of the key-ids — candidates
+  for different tickets get a canonical order, candidates for the SAME ticket keep theirs -/
+  | byKid
+  /-- the code as found: `slices.SortFunc` by the token text — two candidates for one ticket are
+  reordered, and the first acceptable one wins (kept as the negative witness
+  `text_sorted_key_not_transparent`) -/
+  | byText
+  deriving DecidableEq, Repr
+
+/-- `y` sorts strictly before `x` -/
+def before (ko : KeyOrder) (y x : Tok) : Bool :=
+  match ko with
+  | .byKid => Bytes.lt (kidOf y) (kidOf x)
+  | .byText => strLt y.str x.str
+
+/-- insert `x`, which stood in front of everything in the list, keeping it in front of its equals -/
+def insertTok (ko : KeyOrder) (x : Tok) : List Tok → List Tok
   | [] => [x]
-  | y :: ys => if strLt y x then y :: insertSorted x ys else x :: y :: ys
+  | y :: ys => if before ko y x then y :: insertTok ko x ys else x :: y :: ys
 
-/-- `slices.SortFunc(diss, strings.Compare)` on the strings -/
-def sortStrs : List Str → List Str
+/-- stable insertion sort -/
+def sortToks (ko : KeyOrder) : List Tok → List Tok
   | [] => []
-  | x :: xs => insertSorted x (sortStrs xs)
+  | x :: xs => insertTok ko x (sortToks ko xs)
 
-/-- `String(append(diss, perm)...)` after sorting the discharges -/
-def key (p : Str) (ds : List Str) : Str := Header.joinWith ',' (sortStrs ds ++ [p])
-
-def insertTok (x : Tok) : List Tok → List Tok
-  | [] => [x]
-  | y :: ys => if strLt y.str x.str then y :: insertTok x ys else x :: y :: ys
-
-/-- `slices.SortFunc(diss, …)` sorts the candidate slice IN PLACE: the inner verifier is handed the
-discharges in string order, not in the bundle's order -/
-def sortToks : List Tok → List Tok
-  | [] => []
-  | x :: xs => insertTok x (sortToks xs)
-
-/-- the key of a permission token presented with candidate discharges -/
-def keyOf (p : Tok) (ds : List Tok) : Str := key p.str (ds.map Tok.str)
+/-- `String(append(diss, perm)...)` after sorting the discharges: the key of a permission token
+presented with candidate discharges -/
+def keyOf (ko : KeyOrder) (p : Tok) (ds : List Tok) : Str :=
+  Header.joinWith ',' ((sortToks ko ds).map Tok.str ++ [p.str])
 
 /-! ### Value level (`.copy`) -/
 
@@ -84,29 +96,29 @@ def Store.add (c : Store) (e : Entry) : Store := (c.filter fun x => !decide (x.k
 def Store.evict (c : Store) (k : Str) : Store := c.filter fun x => !decide (x.key = k)
 
 /-- what the caching verifier answers: the stored caveats on a hit, else the inner verifier -/
-def cachedOracle (V : Bundle.Oracle) (c : Store) (now : Int) : Bundle.Oracle := fun p ds =>
-  match c.hit now (keyOf p ds) with
+def cachedOracle (ko : KeyOrder) (V : Bundle.Oracle) (c : Store) (now : Int) : Bundle.Oracle := fun p ds =>
+  match c.hit now (keyOf ko p ds) with
   | some cs => some cs
-  | none => V p (sortToks ds)
+  | none => V p (sortToks ko ds)
 
 /-- the queries of one `Verify` call: every permission token with its candidate discharges -/
 def queries (b : Bundle) : List (Tok × List Tok) :=
   (b.ts.filter (isPermAt b.permLoc)).map fun p => (p, dischargesOf b.permLoc b.ts p)
 
 /-- the entries one `Verify` call adds: every miss that the inner verifier accepted -/
-def newEntries (V : Bundle.Oracle) (c : Store) (now ttl : Int) (qs : List (Tok × List Tok)) : List Entry :=
+def newEntries (ko : KeyOrder) (V : Bundle.Oracle) (c : Store) (now ttl : Int) (qs : List (Tok × List Tok)) : List Entry :=
   qs.filterMap fun q =>
-    match c.hit now (keyOf q.1 q.2) with
+    match c.hit now (keyOf ko q.1 q.2) with
     | some _ => none
     | none =>
-      match V q.1 (sortToks q.2) with
-      | some cs => some ⟨keyOf q.1 q.2, cs, now + ttl⟩
+      match V q.1 (sortToks ko q.2) with
+      | some cs => some ⟨keyOf ko q.1 q.2, cs, now + ttl⟩
       | none => none
 
 /-- `(*VerificationCache).Verify` through `Bundle.Verify`: all look-ups first (against the store as
 it was), then the inner verifier on the misses, then the insertions -/
-def verifyCached (V : Bundle.Oracle) (c : Store) (now ttl : Int) (b : Bundle) : Bundle × Store :=
-  (b.verifyBy (cachedOracle V c now), (newEntries V c now ttl (queries b)).foldl Store.add c)
+def verifyCached (ko : KeyOrder) (V : Bundle.Oracle) (c : Store) (now ttl : Int) (b : Bundle) : Bundle × Store :=
+  (b.verifyBy (cachedOracle ko V c now), (newEntries ko V c now ttl (queries b)).foldl Store.add c)
 
 /-- how a history step verifies -/
 inductive VMode
@@ -141,6 +153,7 @@ structure Params where
   V : Bundle.Oracle
   ttl : Int
   scope : Bundle.DischargeScope := .thatLocation
+  order : KeyOrder := .byKid
 
 def emptyBundle : Bundle := ⟨[], []⟩
 
@@ -153,7 +166,7 @@ def step (P : Params) (now : Int) (s : Sys) : Op → Sys × Out
     let b := (s.get i).verifyBy P.V
     (s.set i b, .sets b.verifiedSets)
   | .verify i .cached =>
-    let (b, c) := verifyCached P.V s.store now P.ttl (s.get i)
+    let (b, c) := verifyCached P.order P.V s.store now P.ttl (s.get i)
     ({ s.set i b with store := c }, .sets b.verifiedSets)
   | .validate i rs => (s, .flag (!(s.get i).validate rs))
   | .attenuate i items =>
@@ -218,12 +231,12 @@ structure SlotAcc where
   memo : List (Ref × Ref) := []
 
 /-- `(*VerificationCache).Verify` through `tokens.Verify` on objects -/
-def hverifyCached (sem : Sem) (V : Bundle.Oracle) (now ttl : Int) (s : HSys) (i : Nat) : HSys :=
+def hverifyCached (sem : Sem) (ko : KeyOrder) (V : Bundle.Oracle) (now ttl : Int) (s : HSys) (i : Nat) : HSys :=
   let b := s.get i
   let ts := s.heap.view b.rs
   let slot : SlotAcc → Ref × Tok → Nat → SlotAcc × Ref := fun acc rt u =>
     let ds := dischargesOf b.permLoc ts rt.2
-    let k := keyOf rt.2 ds
+    let k := keyOf ko rt.2 ds
     match hget s.store now k with
     | some e =>
       match sem with
@@ -232,7 +245,7 @@ def hverifyCached (sem : Sem) (V : Bundle.Oracle) (now ttl : Int) (s : HSys) (i 
         ({ acc with heap := { acc.heap with vs := acc.heap.vs ++ [acc.heap.v e.v] },
                     rs := acc.rs ++ [Ref.ver acc.heap.vs.length u] }, Ref.ver acc.heap.vs.length u)
     | none =>
-      match V rt.2 (sortToks ds) with
+      match V rt.2 (sortToks ko ds) with
       | none => ({ acc with rs := acc.rs ++ [Ref.fail u] }, Ref.fail u)
       | some cs =>
         let v := acc.heap.vs.length
@@ -263,7 +276,7 @@ def hstep (sem : Sem) (P : Params) (now : Int) (s : HSys) : Op → HSys × Out
     let s' := { s.set i b with heap := h }
     (s', .sets (b.view h).verifiedSets)
   | .verify i .cached =>
-    let s' := hverifyCached sem P.V now P.ttl s i
+    let s' := hverifyCached sem P.order P.V now P.ttl s i
     (s', .sets ((s'.get i).view s'.heap).verifiedSets)
   | .validate i rs => (s, .flag (!((s.get i).view s.heap).validate rs))
   | .attenuate i items =>
